@@ -156,6 +156,7 @@ func satOracle(c *Case, req M, resp *Response) []Violation {
 	crits := critInfos(req)
 	mp := asM(req["methodParameters"])
 	spec := specFromReq(req)
+	exactLevels = spec.Fn == "thresholds"
 	levels, ok := refLevels(false, spec, crits)
 	if !ok {
 		return []Violation{viol(c, "C13/accepted-invalid-levels", "request with invalid level parameters %v was answered", spec)}
@@ -276,6 +277,8 @@ func decLists(cids []string) []levelSpec {
 		}
 		seqs = append(seqs, s)
 	}
+	seqs = append(seqs, []float64{2.5, 1.5, 1.5, 0.5}, []float64{1.5, 1.5})  // a level repeated: still a level of its own
+	seqs = append(seqs, []float64{2.4999999949, 1.5000000051, 0.5000000049}) // more decimals than any rounding keeps
 	var out []levelSpec
 	for _, a := range seqs {
 		for _, b := range seqs {
@@ -334,6 +337,9 @@ func satEnumerate(s *Shard, prop string, fn func(c *Case)) {
 		cids := critIDs(g.m)
 		specs := append(decLists(cids), genSpecs(false)...)
 		typeSets := [][]string{{"gain", ""}, {"gain", "cost"}}
+		if g.n <= 2 {
+			typeSets = append(typeSets, []string{"cost", "gain"}) // a gain criterion listed after a cost criterion
+		}
 		if g.m == 3 {
 			typeSets = [][]string{{"gain", "gain", "gain"}, {"cost", "gain", "cost"}}
 		}
@@ -372,6 +378,10 @@ func satEnumerate(s *Shard, prop string, fn func(c *Case)) {
 							cfg.Vals, cfg.Ranges, cfg.ZVal = nv, false, -1.5
 						}
 						fn(&Case{Prop: prop, Kind: "satisfaction", Req: satRequest(cfg)})
+						if spec.Fn != "thresholds" && !cfg.Ranges && g.n <= 3 && cc != "zz" {
+							// the never-considered alternative that widens the observed range has an id that sorts FIRST
+							fn(&Case{Prop: prop, Kind: "satisfaction", Req: renameIDs(satRequest(cfg), map[string]string{"zz": "0a"})})
+						}
 						if g.n == 3 && (si+ci)%2 == 1 {
 							rc := cfg
 							rc.Reverse = true
